@@ -234,7 +234,7 @@ func (g *gen) script() {
 	if g.k.stops && ver == "v1" {
 		stopAt = r.Intn(rounds)
 	}
-	nextChan := uint(1000)
+	nextChan := uint(100000)
 
 	for round := 0; round < rounds; round++ {
 		last := round == rounds-1
@@ -271,7 +271,15 @@ func (g *gen) script() {
 					p := uint(1 + r.Intn(12))
 					c := nextChan
 					nextChan++
-					if r.Intn(4) == 0 {
+					if r.Intn(3) == 0 {
+						// a producer reconnects: a fresh channel for a priority whose channel was closed
+						for _, oc := range g.liveChans() {
+							if s.closedCh[oc] {
+								p = s.chanPri[oc]
+								break
+							}
+						}
+					} else if r.Intn(4) == 0 {
 						// re-register an existing channel under a priority
 						if l := g.liveChans(); len(l) > 0 {
 							c = pick(r, l)
